@@ -14,7 +14,7 @@
    which is trivial.  The no-mutation clause is checked by the harness's
    snapshot monitor on the real code (a test, not a proof). *)
 From Koreo Require Import Json Overlay Overlay_proofs.
-From Koreo Require ResourceFn FnTestRun CrossModel_proofs.
+From Koreo Require ResourceFn FnTestRun CrossModel_proofs DeepOverlay_gen DeepOverlay_sync.
 Local Open Scope list_scope.
 Local Open Scope nat_scope.
 
@@ -241,6 +241,13 @@ Theorem C12_resourcefn_overlay_is_merge_doc : forall d,
   ResourceFn.overlay_doc base d = merge_doc (CrossModel_proofs.conv d) (JMap base).
 Proof. exact CrossModel_proofs.overlay_doc_is_merge_doc. Qed.
 
+(* The tie to the code as a proof obligation: the transcription of cel/functions._deep_overlay
+   regenerated from the current source on every run (gen/DeepOverlay_gen.v) computes, with fuel
+   covering the overlay's nesting depth, exactly the model (hence all three models). *)
+Theorem C12_deep_overlay_is_transcription_of_code : forall res ov : list (string * json),
+  option_map JMap (DeepOverlay_gen.deep_overlay_gen (DeepOverlay_sync.mdepth (JMap ov)) res ov) =
+  Some (ResourceFn.merge_val (JMap res) (JMap ov)).
+Proof. exact DeepOverlay_sync.deep_overlay_gen_is_merge_val. Qed.
 
 Print Assumptions C12_leaf_replaces.
 Print Assumptions C12_what_is_a_leaf.
@@ -263,3 +270,4 @@ Print Assumptions C12_eval_deterministic.
 Print Assumptions C12_no_raise.
 Print Assumptions C12_models_of_deep_overlay_agree.
 Print Assumptions C12_resourcefn_overlay_is_merge_doc.
+Print Assumptions C12_deep_overlay_is_transcription_of_code.
